@@ -361,6 +361,34 @@ func (ch c14) Run(c *core.Ctx) {
 			}
 		}
 	}
+	// the column's type is what the connection's type map says it is: a server that registers a codec of its
+	// own for int8 (decoding to text "amount:<n>") gets its values through that codec, in COPY as elsewhere
+	if c.Batch == 1 && c.Begin(9000000) {
+		envC := hs.Start(hs.Parse, wire.ExtendTypes(func(m *pgtype.Map) {
+			m.RegisterType(&pgtype.Type{Name: "int8", OID: pgtype.Int8OID, Codec: c14amount{}})
+		}))
+		t := c14table{OIDs: []uint32{pg.OIDInt4, pg.OIDInt8}, Rows: [][]any{{int32(1), int64(42)}, {int32(2), int64(-7)}, {nil, int64(1 << 40)}}, Trailer: true}
+		stream, ends := t.encode()
+		for _, cuts := range [][]int{nil, ends, {20, 27}} {
+			obs, ok := ch.runStream(c, envC, t, stream, cuts, false, nil)
+			if !ok {
+				break
+			}
+			c.Count("streams_through_a_registered_codec", 1)
+			c.Eval(fmt.Sprintf("registered codec %d", len(cuts)), true)
+			bad := len(obs.Rows) != len(t.Rows) || obs.End != "eof"
+			for i := 0; !bad && i < len(obs.Rows); i++ {
+				if s, _ := obs.Rows[i][1].(string); s != fmt.Sprintf("amount:%d", t.Rows[i][1].(int64)) {
+					bad = true
+				}
+			}
+			if bad {
+				c.Violate("row-value", "values of a column whose type has a codec registered by the server are not decoded through that codec", fmt.Sprintf("rows %v end %s (%s), want the int8 column as amount:<n> strings", obs.Rows, obs.End, obs.ErrTxt), nil)
+				break
+			}
+		}
+		envC.Stop()
+	}
 	n := 120
 	if c.Tier == "thorough" {
 		n = 3200
@@ -825,4 +853,17 @@ func (ch c14) corrupt(c *core.Ctx, env *hs.Env, t c14table, stream []byte, rowEn
 			return
 		}
 	}
+}
+
+// c14amount: an int8 codec of the embedding program; binary values decode to the text "amount:<n>".
+type c14amount struct{ pgtype.Int8Codec }
+
+func (c14amount) DecodeValue(m *pgtype.Map, oid uint32, format int16, src []byte) (any, error) {
+	if src == nil {
+		return nil, nil
+	}
+	if format != 1 || len(src) != 8 {
+		return nil, fmt.Errorf("amount: unexpected format %d / length %d", format, len(src))
+	}
+	return fmt.Sprintf("amount:%d", int64(binary.BigEndian.Uint64(src))), nil
 }
